@@ -29,6 +29,13 @@ Definition st_min (d : N -> N) (xs : list N) : option N :=
 Definition st_max (d : N -> N) (xs : list N) : option N :=
   fold_left (fun a x => if 0 <? d x then opt_max a (d x) else a) xs None.
 
+(* combining the extremes of several chromosomes: an absent extreme (no covered base) is neutral *)
+Definition opt_meet (f : N -> N -> N) (a b : option N) : option N :=
+  match a, b with
+  | None, x | x, None => x
+  | Some x, Some y => Some (f x y)
+  end.
+
 (* the depth of a list of segments at a base: the sum of the values of the segments containing it
    (a run-length encoded depth function; an empty segment contains nothing) *)
 Definition seg_at (g : seg) (x : N) : N := if (g_start g <=? x) && (x <? g_end g) then g_val g else 0.
